@@ -110,6 +110,7 @@ static inline DResult dmodel_descend(DNode &root, const DPath &p, bool set)
 		if (e.t == 2 && !set) { r.err = EINVAL; return r; }
 		if (ix >= len) {
 		    if (!set) { r.err = ENOENT; return r; }
+		    if (ix > (1L << 20)) { r.err = EINVAL; r.err_alt = ENOMEM; return r; }	// (the model does not build lists of millions of nulls)
 		    node->vals.resize((size_t)ix + 1);
 		}
 	    } else if (e.t == 2) {
